@@ -2,6 +2,7 @@
 // simulated cgroup tree, runs one real kill plugin (behind the verif_wrap observer) inside the
 // real Oomd::run for a few ticks, and returns the effect log parsed into victim attempts.
 #pragma once
+#include <functional>
 #include <map>
 #include <sstream>
 #include <string>
@@ -11,6 +12,7 @@
 #include "common/refglob.h"
 #include "common/sim.h"
 #include "common/world.h"
+#include "oomd/Oomd.h"
 #include "oomd/include/CoreStats.h"
 
 namespace ks {
@@ -46,6 +48,10 @@ struct Scenario {
   std::string silence;
   double tickSpacing = 1.0;
   int rulesetDelay = 0;    // ruleset-level post_action_delay
+  // optional scripting (not part of describe())
+  std::function<void(Oomd::Oomd&)> afterMake;                       // e.g. install a drop-in adaptor
+  std::function<void(int tick)> onTick;                            // scripted environment step before each tick
+  std::function<bool(const std::string&, long, int)> hookDecide;   // verif_hook poll answers
   std::string describe() const {
     std::ostringstream o;
     o << plugin << "(";
@@ -179,6 +185,8 @@ inline Outcome run(const Scenario& s, bool verbose = false) {
     return out;
   }
   sim::decide = [](const std::string&, const std::string&) { return 0; };
+  sim::hookDecide = s.hookDecide;
+  if (s.afterMake) s.afterMake(*o);
   out.tickStart.assign(s.ticks + 2, 0);
   out.killsStatAtTickEnd.assign(s.ticks + 2, 0);
   std::map<std::string, Cg> byRel;
@@ -209,6 +217,10 @@ inline Outcome run(const Scenario& s, bool verbose = false) {
           auto it = byRel.find(rel);
           long long base = it == byRel.end() ? 10 : it->second.pgscan;
           world::setMemStatKey(rel, "pgscan", base * k);
+        }
+        if (s.onTick) {
+          s.onTick(k);
+          world::syncProcs();
         }
         out.tickStart[k] = vb::effects.size();
       },
